@@ -41,7 +41,7 @@ Wire(h) == IF "recminor" \in DOMAIN h THEN WireV(h, h.recminor) ELSE WireV(h, 1)
 Chr(b) == IF b >= 48 /\ b <= 57 THEN SubSeq("0123456789", b - 47, b - 47)
           ELSE IF b >= 97 /\ b <= 122 THEN SubSeq("abcdefghijklmnopqrstuvwxyz", b - 96, b - 96)
           ELSE IF b >= 65 /\ b <= 90 THEN SubSeq("ABCDEFGHIJKLMNOPQRSTUVWXYZ", b - 64, b - 64)
-          ELSE IF b = 46 THEN "." ELSE IF b = 47 THEN "/" ELSE IF b = 45 THEN "-" ELSE "?"
+          ELSE IF b = 46 THEN "." ELSE IF b = 47 THEN "/" ELSE IF b = 45 THEN "-" ELSE IF b = 58 THEN ":" ELSE IF b = 91 THEN "[" ELSE IF b = 93 THEN "]" ELSE IF b = 95 THEN "_" ELSE "?"
 RECURSIVE Str(_)
 Str(bs) == IF Len(bs) = 0 THEN "" ELSE Chr(bs[1]) \o Str(Tail(bs))
 
